@@ -265,7 +265,9 @@ fn show_bytes(b: &[u8]) -> String {
 /// differences between implementation and model observations (empty = agree)
 pub fn diff_obs(imp: &Obs, model: &Obs) -> Vec<String> {
     let mut d = vec![];
-    if imp.verdict != model.verdict {
+    // the kind of failure (circular dependency vs other) is carried by a message only: not compared
+    let norm = |v: &str| if v == "circular" { "err".to_string() } else { v.to_string() };
+    if norm(&imp.verdict) != norm(&model.verdict) {
         d.push(format!("verdict: implementation `{}`, model `{}` ({})", imp.verdict, model.verdict, imp.message.lines().rev().take(3).collect::<Vec<_>>().join(" | ")));
         return d;
     }
